@@ -2,6 +2,7 @@ package simrt
 
 import (
 	"fmt"
+	"os"
 	"runtime"
 	"runtime/debug"
 	"sort"
@@ -499,10 +500,18 @@ func (s *Sched) Run(first int) bool {
 	case <-s.mainWake:
 	case <-time.After(60 * time.Second):
 		s.Watchdog = true
+		dumpStacks()
 		return false
 	}
 	s.wg.Wait()
 	return true
+}
+
+func dumpStacks() {
+	buf := make([]byte, 1<<20)
+	n := runtime.Stack(buf, true)
+	os.Stderr.WriteString("simrt: scheduler watchdog fired; goroutines:\n")
+	os.Stderr.Write(buf[:n])
 }
 
 // launch starts the (parked) goroutine of a task.
@@ -823,12 +832,14 @@ type Pool struct {
 func (p *Pool) Get() any {
 	Yield(SiteLock)
 	p.mu.Lock()
-	defer p.mu.Unlock()
 	if n := len(p.items); n > 0 {
 		x := p.items[n-1]
 		p.items = p.items[:n-1]
+		p.mu.Unlock()
 		return x
 	}
+	p.mu.Unlock()
+	// New is code under test: it contains scheduling points and must run without any real lock held
 	if p.New != nil {
 		return p.New()
 	}
